@@ -2,7 +2,7 @@
 import common, schema, histgen, p_hist
 THEOREMS = ["C02_struct_one_item", "C02_struct_skips", "C02_empty_structures", "C02_empty_output", "C02_blocks_nonempty",
             "C02_indices_resolve", "C02_output_is_one_item", "C02_outputs_of_history", "C02_output_skips", "C02_nonvacuous"]
-EXTRA_PROPERTY_FILES = ("Properties_format",)   # obligations over the regenerated Gen_format.v (translator/format.py)
+EXTRA_PROPERTY_FILES = ("Properties_format", "Properties_encoder")   # obligations over the regenerated Gen_format.v / Gen_encoder.v (translator/format.py, encoder.py)
 EMPTY_QR = None
 def gen_cases(sch, tier, rng):
     cases = []
